@@ -144,6 +144,9 @@ class Model:
         # renamed / moved functions and renamed attributes are mapped back
         # to the names of the pinned tree first
         self.aliases = normalise.map_back({k: v[2] for k, v in parsed.items()})
+        # pinned helpers that were inlined into their callers are put back
+        self.aliases.restored = normalise.outline_back(
+            {k: v[2] for k, v in parsed.items()}, self.aliases)
         self.norm = normalise.Normaliser(
             {k: v[2] for k, v in parsed.items()},
             normalise.known_functions()).run()
